@@ -20,7 +20,8 @@ use swimos_agent_protocol::{LaneResponse, MapOperation};
 use swimos_api::agent::UplinkKind;
 use swimos_messages::protocol::{Notification, RawResponseMessageDecoder};
 use swimos_runtime::agent::AgentRuntimeConfig;
-use swimos_runtime::verif_hooks::{write_task_for_verif, WriteTaskHandles};
+use swimos_runtime::agent::reporting::{UplinkReportReader, UplinkReporter};
+use swimos_runtime::verif_hooks::{write_task_for_verif_reporting, WriteTaskHandles};
 use swimos_utilities::byte_channel::{byte_channel, BudgetedFutureExt, ByteReader};
 use tokio::io::{AsyncRead, AsyncWrite, ReadBuf};
 use tokio_util::codec::{Decoder, Encoder};
@@ -39,6 +40,9 @@ pub enum LStep {
     Ev(u8, i32),
     /// lane l writes bytes that are not a lane response
     Garbage(u8),
+    /// a link request for lane l arrives from a remote the write task does not have (it was never
+    /// attached to it, or has been removed): nobody is there to be linked
+    GhostLink(u8),
 }
 
 #[derive(Clone, Debug, serde::Serialize, serde::Deserialize)]
@@ -77,6 +81,10 @@ pub struct WtLinkWorld {
     failed_lane_at: BTreeMap<u8, u64>,
     stop_fired: Option<u64>,
     completed_at: Option<u64>,
+    agg: UplinkReportReader,
+    /// (reported link count, links open according to the remotes' frames) at quiescence, just
+    /// before the task is asked to stop
+    links_at_quiescence: Option<(u64, u64)>,
     trace_on: bool,
     trace: Vec<String>,
 }
@@ -179,7 +187,9 @@ impl World for WtLinkWorld {
     fn new(cfg: &LCfg, trace: bool) -> Self {
         let config = AgentRuntimeConfig { inactive_timeout: Duration::from_secs(100_000), prune_remote_delay: Duration::from_secs(100_000), shutdown_timeout: Duration::from_secs(10), ..Default::default() };
         let lanes: Vec<(&str, UplinkKind, bool)> = LANES.iter().map(|(n, k)| (*n, *k, true)).collect();
-        let (task, h) = write_task_for_verif(Uuid::from_u128(7), "/node", config, lanes, NonZeroUsize::new(4096).unwrap());
+        let agg_reporter = UplinkReporter::default();
+        let agg = agg_reporter.reader();
+        let (task, h) = write_task_for_verif_reporting(Uuid::from_u128(7), "/node", config, lanes, NonZeroUsize::new(4096).unwrap(), Some(agg_reporter));
         let budget = NonZeroUsize::new(cfg.budget.max(2)).unwrap();
         let subject: Subject<()> = Subject::new(tokio::task::unconstrained(
             async move {
@@ -200,6 +210,8 @@ impl World for WtLinkWorld {
             failed_lane_at: BTreeMap::new(),
             stop_fired: None,
             completed_at: None,
+            agg,
+            links_at_quiescence: None,
             trace_on: trace,
             trace: vec![],
         }
@@ -244,6 +256,26 @@ impl World for WtLinkWorld {
                 self.h.drain_read_messages();
             }
             EV_STOP => {
+                // quiescent: every frame written so far has been read by its remote
+                let mut open = 0u64;
+                for r in &self.remotes {
+                    for (lname, _) in LANES.iter() {
+                        let mut o = false;
+                        for f in r.frames.iter().filter(|f| f.lane == *lname) {
+                            match f.kind {
+                                "linked" => o = true,
+                                "unlinked" => o = false,
+                                _ => {}
+                            }
+                        }
+                        if o {
+                            open += 1;
+                        }
+                    }
+                }
+                if let Some(s) = self.agg.snapshot() {
+                    self.links_at_quiescence = Some((s.link_count, open));
+                }
                 self.stop_fired = Some(self.step);
                 if let Some(s) = self.h.stop.take() {
                     s.trigger();
@@ -273,6 +305,7 @@ impl World for WtLinkWorld {
                         }
                         write_all(&mut self.h.lanes[*l as usize].2, &buf)
                     }
+                    LStep::GhostLink(l) => self.h.link(Uuid::from_u128(4242), LANES[*l as usize].0),
                     LStep::Garbage(l) => {
                         let ok = write_all(&mut self.h.lanes[*l as usize].2, &[0xffu8; 24]);
                         if ok {
@@ -301,6 +334,14 @@ impl World for WtLinkWorld {
             }
         };
         let stopped = self.stop_fired.is_some();
+        if let Some((reported, open)) = self.links_at_quiescence {
+            if reported != open {
+                add(
+                    "wt-links: the agent's reported uplink count differs from the number of open links at quiescence".into(),
+                    format!("reported {} links, the remotes hold {} open links", reported, open),
+                );
+            }
+        }
         for (ri, r) in self.remotes.iter().enumerate() {
             if let Some(e) = &r.decode_error {
                 add("wt-links: a remote received bytes that are not a response frame".into(), format!("remote {}: {}", ri, e));
@@ -443,6 +484,9 @@ fn scripts() -> Vec<Vec<LStep>> {
     }
     // no failure at all: plain link protocol
     v.push(vec![Attach(0), Attach(1), Link(0, 0), Link(1, 1), Ev(0, 1), Ev(1, 2), Unlink(0, 0), Link(0, 2), Ev(2, 3), Ev(0, 4)]);
+    // link requests from a remote the write task does not know
+    v.push(vec![Attach(0), Link(0, 0), GhostLink(0), Ev(0, 1), GhostLink(1), Ev(1, 2), Link(0, 1), Ev(1, 3)]);
+    v.push(vec![GhostLink(2), Attach(1), Link(1, 2), Ev(2, 1), Unlink(1, 2), GhostLink(2), Ev(2, 2)]);
     v
 }
 
